@@ -499,6 +499,9 @@ def run(ck):
     resume_atomicity(ck, P)
     n = handover_after_suspension(ck, P)
     ck.floor("PAIR/handover-after-suspension", n, 20)
+    # the decoder's decisions are those of the reference
+    from .. import condparity as _cp
+    ck.floor("SIB/ref-conditions", _cp.check(ck, P, "SIB/ref-conditions", only={"inflate.c:inflate", "inffast_tpl.h:INFLATE_FAST"}), 50)
     voluntary_leave(ck, P)
     mode_total(ck, P)
     buf_error_shape(ck, P)
